@@ -73,9 +73,16 @@ impl Params {
         let mem = mem / 1024;
         let mem = u32::try_from(mem).map_err(|_| PasetoError::InvalidKey)?;
 
+        // argon2 multiplies the lane count by 8 before range-checking it, which overflows (and panics
+        // in overflow-checked builds) for attacker-chosen values of 2^29 and above
+        let para = self.para.get();
+        if !(argon2::Params::MIN_P_COST..=argon2::Params::MAX_P_COST).contains(&para) {
+            return Err(PasetoError::InvalidKey);
+        }
+
         let params = argon2::ParamsBuilder::new()
             .m_cost(mem)
-            .p_cost(self.para.get())
+            .p_cost(para)
             .t_cost(self.time.get())
             .build()
             .map_err(|_| PasetoError::InvalidKey)?;
